@@ -278,6 +278,11 @@ func c14Cases() []c14Case {
 		c14Case{desc: "static-odd-names", tpl: `<p @click="go" v-cloak="" v-on:click="go" v-model="m" data-a.b="c" on:x="y">t</p>`, data: map[string]any{"go": "WRONG", "m": "WRONG", "y": "WRONG"},
 			want: map[string]string{"@click": "go", "v-cloak": "", "v-on:click": "go", "v-model": "m", "data-a.b": "c", "on:x": "y"}},
 	)
+	// b1. interior white space of a static value (also next to an interpolation) is part of the value
+	out = append(out,
+		c14Case{desc: "static-interior-whitespace", tpl: `<p a="x  y" b="l1&#10;l2" c="t&#9;t" e="n  {{ y }}&#10;m" :d="y">t</p>`, data: map[string]any{"y": "yy"},
+			want: map[string]string{"a": "x  y", "b": "l1\nl2", "c": "t\tt", "e": "n  yy\nm", "d": "yy"}, order: []string{"a", "b", "c", "e"}},
+	)
 	// b. statics in place, with interpolated static
 	out = append(out, c14Case{desc: "static-in-place:interp", tpl: `<p a="1" b="x{{ y }}z" c="3" :d="y" e="5">t</p>`, data: map[string]any{"y": "yy"}, want: map[string]string{"a": "1", "b": "xyyz", "c": "3", "d": "yy", "e": "5"}, order: []string{"a", "b", "c", "e"}})
 	sort.SliceStable(out, func(i, j int) bool { return false })
